@@ -505,6 +505,25 @@ func fnCells(fns map[string]fnDef, scopeList []string, fam string, variants bool
 						}
 						out = append(out, c)
 					}
+					// type-strict use of the result (like the gettype cells of the variables): `==` demands identical operand
+					// types in the linter and in the simulator, so the declared return type, the linter's and the runtime type
+					// must agree; once per signature, in the first scope of the function
+					rtScope := ""
+					if len(d.On) > 0 {
+						rtScope = d.On[0]
+					}
+					if strings.HasPrefix(name, "setcookie.") {
+						rtScope = "DELIVER" // the resp argument exists there (the other scopes are cells of their own)
+					}
+					if f.tag == "" && f.ok && inScope && sc == rtScope {
+						switch d.Return {
+						case "INTEGER", "FLOAT", "STRING", "BOOL", "RTIME", "TIME", "IP":
+							c := cell{ID: fmt.Sprintf("fn:%s/%s/%s/rettype", name, sigID, sc), Fam: fm, Scope: sc, Ref: "accept"}
+							c.Pre = pre + "\ndeclare local var.x " + d.Return + ";\nset var.x = " + literalFor(d.Return) + ";"
+							c.Stmt = "if (var.x == " + call + ") {}"
+							out = append(out, c)
+						}
+					}
 					c := cell{ID: fmt.Sprintf("fn:%s/%s/%s/stmt", name, sigID, sc), Fam: fm, Scope: sc, Ref: verdict(inScope && f.ok && d.Return == "")}
 					c.Pre = pre
 					c.Stmt = call + ";"
